@@ -6,11 +6,12 @@ CONSTANTS
   MaxNonce = 2
   MaxBal = 2
   MaxCode = 2
+  Del = TRUE
   MaxJournal = 12
   MaxSnap = 3
   MaxIds = 6
 VIEW view
 CONSTRAINT Bound
 INVARIANTS TypeOK SnapshotsNested RevertRestoresExactly
-PROPERTIES RevertStep ReopenEqualsContent FinalisedClean DiskStable ProofYieldsValueOrAbsence
+PROPERTIES ResetQuirk RevertStep ReopenEqualsContent FinalisedClean DiskStable ProofYieldsValueOrAbsence
 CHECK_DEADLOCK FALSE
